@@ -339,6 +339,7 @@ func opC18(w *World, s *Step) (string, string) {
 			}
 		}
 		w.stats.add("c18_rounds_with_concurrency", int64(conc))
+		w.stats.add("fault_schedule_rounds_with_overlapping_operations", int64(conc))
 		w.stats.inc(fmt.Sprintf("c18_gomaxprocs_%d", s.Procs))
 		if len(s.Tasks) >= 2 {
 			w.nontriv = true
@@ -361,6 +362,7 @@ func opC18(w *World, s *Step) (string, string) {
 		inter, yields, switches, sig = runSerialized(s.Tasks, s.Schedule)
 		w.stats.add("c18_yield_points_passed", yields)
 		w.stats.add("c18_context_switches", int64(switches))
+		w.stats.add("fault_schedule_forced_context_switches", int64(switches))
 		if len(s.Tasks) >= 2 && switches > 0 {
 			w.nontriv = true
 		}
